@@ -1,5 +1,708 @@
 import MgpuModel.Util
-/-! C03 (vector / memory part) — stub; replaced by the vector-ALU module. -/
+import MgpuModel.C03V_Float
+import MgpuModel.C03V_Int
+/-! # C03 (vector / memory half) — executable ISA specification
+
+`handle` takes a case line `c03 v <arch> <hexbytes> <cell>=<hex> …` (the pre-state cells the
+harness set; every other cell is 0), decodes the instruction word with its own field
+extraction, executes the ISA semantics and prints the post-state *delta* in the canonical
+order of `harness/emustate.go: delta`.
+
+Independent of the Go handlers: integer lane functions are in `C03V_Int.lean` (meaning lemmas
+in `MgpuProofs/Props/C03V.lean`), float arithmetic is the exact rational reference of
+`C03V_Float.lean`, operand fetch / EXEC masking / VCC / SDWA / memory addressing are written
+from the manuals. -/
 namespace C03V
-def handle (_line : String) : String := "bad"
+open C03V.I
+
+/-! ## state -/
+structure St where
+  s : Array Nat
+  v : Array Nat
+  vcc : Nat
+  exec : Nat
+  scc : Nat
+  m0 : Nat
+  pc : Nat
+  lds : List (Nat × Nat)
+  mem : List (Nat × Nat)
+
+def St.empty : St :=
+  { s := Array.replicate 128 0, v := Array.replicate (256 * 64) 0, vcc := 0, exec := 0, scc := 0,
+    m0 := 0, pc := 0, lds := [], mem := [] }
+
+def St.rs (st : St) (i : Nat) : Nat := st.s.getD i 0
+def St.rv (st : St) (r lane : Nat) : Nat := st.v.getD (r * 64 + lane) 0
+def lookup (l : List (Nat × Nat)) (a : Nat) : Nat :=
+  match l.find? (fun p => p.1 == a) with
+  | some p => p.2
+  | none => 0
+def St.rlds (st : St) (a : Nat) : Nat := lookup st.lds a
+def St.rmem (st : St) (a : Nat) : Nat := lookup st.mem a
+
+inductive Cell where
+  | s (i : Nat)
+  | v (r lane : Nat)
+  | vcc
+  | exec
+  | scc
+  | pc
+  | m0
+  | lds (a : Nat)
+  | mem (a : Nat)
+
+/-- canonical order of `delta`: SGPRs, VGPRs lane-major, vcc, exec, scc, pc, m0, LDS, memory -/
+def Cell.key : Cell → Nat
+  | .s i => i
+  | .v r l => 1 * 2 ^ 80 + l * 256 + r
+  | .vcc => 2 * 2 ^ 80
+  | .exec => 3 * 2 ^ 80
+  | .scc => 4 * 2 ^ 80
+  | .pc => 5 * 2 ^ 80
+  | .m0 => 6 * 2 ^ 80
+  | .lds a => 7 * 2 ^ 80 + a
+  | .mem a => 8 * 2 ^ 80 + a
+
+def St.old (st : St) : Cell → Nat
+  | .s i => st.rs i
+  | .v r l => st.rv r l
+  | .vcc => st.vcc
+  | .exec => st.exec
+  | .scc => st.scc
+  | .pc => st.pc
+  | .m0 => st.m0
+  | .lds a => st.rlds a
+  | .mem a => st.rmem a
+
+def Cell.show (c : Cell) (x : Nat) : String :=
+  match c with
+  | .s i => s!"s{i}={Util.toHex x}"
+  | .v r l => s!"v{r}[{l}]={Util.toHex x}"
+  | .vcc => s!"vcc={Util.toHex x}"
+  | .exec => s!"exec={Util.toHex x}"
+  | .scc => s!"scc={x}"
+  | .pc => s!"pc={Util.toHex x}"
+  | .m0 => s!"m0={Util.toHex x}"
+  | .lds a => s!"lds[{Util.toHex a}]={Util.toHexPad 2 x}"
+  | .mem a => s!"mem[{Util.toHex a}]={Util.toHexPad 2 x}"
+
+abbrev Wr := Cell × Nat
+
+/-- the printed delta: last write to a cell wins, cells whose value did not change are omitted -/
+def finalize (st : St) (ws : List Wr) : String :=
+  let arr : Array (Nat × Nat × Wr) := (ws.zipIdx.map fun (w, i) => (w.1.key, i, w)).toArray
+  let sorted := arr.qsort (fun a b => a.1 < b.1 || (a.1 == b.1 && a.2.1 < b.2.1))
+  let n := sorted.size
+  let out := (List.range n).filterMap fun i =>
+    match sorted[i]? with
+    | none => none
+    | some (k, _, (c, x)) =>
+      let lastOfKey := match sorted[i + 1]? with
+        | some (k', _, _) => k' != k
+        | none => true
+      if lastOfKey && st.old c != x then some (c.show x) else none
+  if out.isEmpty then "-" else " ".intercalate out
+
+/-! ## case-line parsing -/
+def parseCell (st : St) (tok : String) : Option St := do
+  let parts := tok.splitOn "="
+  guard (parts.length == 2)
+  let k := parts[0]!
+  let vs := parts[1]!
+  if k == "vcc" then pure { st with vcc := ← Util.hexNat? vs }
+  else if k == "exec" then pure { st with exec := ← Util.hexNat? vs }
+  else if k == "scc" then pure { st with scc := ← Util.hexNat? vs }
+  else if k == "m0" then pure { st with m0 := ← Util.hexNat? vs }
+  else if k == "pc" then pure { st with pc := ← Util.hexNat? vs }
+  else if k.startsWith "lds[" || k.startsWith "mem[" then
+    let a ← Util.hexNat? (((k.drop 4).toString.dropEnd 1).toString)
+    let bs ← Util.hexBytes? vs
+    let cells := bs.zipIdx.map fun (b, i) => (a + i, b)
+    if k.startsWith "lds[" then pure { st with lds := cells ++ st.lds }
+    else pure { st with mem := cells ++ st.mem }
+  else if k.startsWith "s" then
+    let i ← ((k.drop 1).toString).toNat?
+    pure { st with s := st.s.setIfInBounds i (← Util.hexNat? vs) }
+  else if k.startsWith "v" then
+    let body := (k.drop 1).toString
+    let ps := body.splitOn "["
+    guard (ps.length == 2)
+    let r ← ps[0]!.toNat?
+    let l ← ((ps[1]!.dropEnd 1).toString).toNat?
+    pure { st with v := st.v.setIfInBounds (r * 64 + l) (← Util.hexNat? vs) }
+  else none
+
+/-! ## operand fetch -/
+def lo32 (x : Nat) : Nat := x % 2 ^ 32
+def w32 (x : Nat) : W := BitVec.ofNat 32 x
+def w64 (x : Nat) : D := BitVec.ofNat 64 x
+
+def inlineF32 (code : Nat) : Nat :=
+  match code with
+  | 240 => 0x3f000000 | 241 => 0xbf000000 | 242 => 0x3f800000 | 243 => 0xbf800000
+  | 244 => 0x40000000 | 245 => 0xc0000000 | 246 => 0x40800000 | 247 => 0xc0800000
+  | _ => 0x3e22f983
+def inlineF64 (code : Nat) : Nat :=
+  match code with
+  | 240 => 0x3fe0000000000000 | 241 => 0xbfe0000000000000 | 242 => 0x3ff0000000000000
+  | 243 => 0xbff0000000000000 | 244 => 0x4000000000000000 | 245 => 0xc000000000000000
+  | 246 => 0x4010000000000000 | 247 => 0xc010000000000000
+  | _ => 0x3fc45f306dc9c882
+
+/-- a 64-bit scalar register pair / special register -/
+def St.sreg64 (st : St) (code : Nat) : Nat :=
+  if code == 106 then st.vcc else if code == 126 then st.exec
+  else st.rs code + st.rs (code + 1) * 2 ^ 32
+
+/-- 9-bit source operand of width `w` (32 or 64) for lane `lane` -/
+def St.src (st : St) (code lane w lit : Nat) (f64 : Bool) : Nat :=
+  if code ≥ 256 then
+    let r := code - 256
+    if w == 64 then st.rv r lane + st.rv (r + 1) lane * 2 ^ 32 else st.rv r lane
+  else if code ≤ 101 then (if w == 64 then st.sreg64 code else st.rs code)
+  else if code == 106 then (if w == 64 then st.vcc else lo32 st.vcc)
+  else if code == 107 then st.vcc / 2 ^ 32
+  else if code == 124 then st.m0
+  else if code == 126 then (if w == 64 then st.exec else lo32 st.exec)
+  else if code == 127 then st.exec / 2 ^ 32
+  else if 128 ≤ code && code ≤ 192 then code - 128
+  else if 193 ≤ code && code ≤ 208 then 2 ^ w - (code - 192)
+  else if 240 ≤ code && code ≤ 248 then (if w == 64 && f64 then inlineF64 code else inlineF32 code)
+  else if code == 255 then lit
+  else 0
+
+/-! ## vector-ALU opcode table -/
+inductive Ty where
+  | int | f32 | f64
+deriving BEq
+
+inductive Kind where
+  | plain      -- D = f(S0,S1,S2)
+  | carryOut   -- also writes carry to VCC / SDST
+  | carryIO    -- reads carry-in (VCC or SRC2 mask), writes carry-out
+  | cmp        -- writes only a lane mask
+  | cndmask    -- D = mask[lane] ? S1 : S0
+  | mac        -- S2 is the old destination
+  | madmk      -- D = S0 * K + S1
+  | madak      -- D = S0 * S1 + K
+  | rfl        -- v_readfirstlane_b32
+  | movrel     -- v_movrelsd_b32
+  | fmas       -- v_div_fmas: reads VCC[lane]
+deriving BEq
+
+structure LaneIn where
+  a : Nat
+  b : Nat
+  c : Nat
+  cin : Bool
+
+structure LaneOut where
+  d : Nat
+  co : Bool := false
+
+structure VOp where
+  name : String
+  nsrc : Nat
+  w0 : Nat := 32
+  w1 : Nat := 32
+  w2 : Nat := 32
+  wd : Nat := 32
+  kind : Kind := .plain
+  ty : Ty := .int
+  /-- result is produced by float arithmetic (NaN canonical, clamp applies) -/
+  arith : Bool := false
+  /-- which sources accept the float ABS / NEG input modifiers (bit i = source i) -/
+  modMask : Nat := 7
+  f : LaneIn → LaneOut
+
+def un32 (n : String) (g : W → W) : VOp := { name := n, nsrc := 1, f := fun x => ⟨(g (w32 x.a)).toNat, false⟩ }
+def bin32 (n : String) (g : W → W → W) : VOp :=
+  { name := n, nsrc := 2, f := fun x => ⟨(g (w32 x.a) (w32 x.b)).toNat, false⟩ }
+def tri32 (n : String) (g : W → W → W → W) : VOp :=
+  { name := n, nsrc := 3, f := fun x => ⟨(g (w32 x.a) (w32 x.b) (w32 x.c)).toNat, false⟩ }
+def binF (n : String) (fm : F.Fmt) (g : Nat → Nat → Nat) : VOp :=
+  let w := fm.width
+  { name := n, nsrc := 2, w0 := w, w1 := w, wd := w, ty := if w == 64 then .f64 else .f32, arith := true,
+    f := fun x => ⟨g x.a x.b, false⟩ }
+def triF (n : String) (fm : F.Fmt) (g : Nat → Nat → Nat → Nat) : VOp :=
+  let w := fm.width
+  { name := n, nsrc := 3, w0 := w, w1 := w, w2 := w, wd := w, ty := if w == 64 then .f64 else .f32,
+    arith := true, f := fun x => ⟨g x.a x.b x.c, false⟩ }
+def co32 (n : String) (g : W → W → W × Bool) : VOp :=
+  { name := n, nsrc := 2, kind := .carryOut,
+    f := fun x => let r := g (w32 x.a) (w32 x.b); ⟨r.1.toNat, r.2⟩ }
+def cio32 (n : String) (g : W → W → Bool → W × Bool) : VOp :=
+  { name := n, nsrc := 2, kind := .carryIO,
+    f := fun x => let r := g (w32 x.a) (w32 x.b) x.cin; ⟨r.1.toNat, r.2⟩ }
+def cmpOf (n : String) (w : Nat) (ty : Ty) (g : Nat → Nat → Bool) : VOp :=
+  { name := n, nsrc := 2, w0 := w, w1 := w, wd := 0, kind := .cmp, ty := ty, f := fun x => ⟨0, g x.a x.b⟩ }
+
+/-- float compare, `op` 0..15: F LT EQ LE GT LG GE O U NGE NLG NGT NLE NEQ NLT TRU -/
+def fcmp (fm : F.Fmt) (op : Nat) (a b : Nat) : Bool :=
+  let r := F.cmpV (F.unpack fm a) (F.unpack fm b)
+  let lt := r == some .lt
+  let eq := r == some .eq
+  let gt := r == some .gt
+  let un := r.isNone
+  match op with
+  | 0 => false | 1 => lt | 2 => eq | 3 => lt || eq | 4 => gt | 5 => lt || gt | 6 => gt || eq
+  | 7 => !un | 8 => un | 9 => !(gt || eq) | 10 => !(lt || gt) | 11 => !gt | 12 => !(lt || eq)
+  | 13 => !eq | 14 => !lt | _ => true
+
+/-- V_CMP_CLASS_F32: S1 is a mask over the ten IEEE classes of S0 -/
+def fclass (fm : F.Fmt) (a mask : Nat) : Bool :=
+  let neg := a ≥ fm.signBit
+  let e := (a / 2 ^ fm.mb) % 2 ^ fm.eb
+  let m := a % 2 ^ fm.mb
+  let cls : Nat :=
+    if e == fm.expMax && m != 0 then (if m ≥ 2 ^ (fm.mb - 1) then 1 else 0)
+    else if e == fm.expMax then (if neg then 2 else 9)
+    else if e == 0 && m == 0 then (if neg then 5 else 6)
+    else if e == 0 then (if neg then 4 else 7)
+    else (if neg then 3 else 8)
+  mask.testBit cls
+
+def cmpNames : Array String := #["f", "lt", "eq", "le", "gt", "ne", "ge", "t"]
+def fcmpNames : Array String :=
+  #["f", "lt", "eq", "le", "gt", "lg", "ge", "o", "u", "nge", "nlg", "ngt", "nle", "neq", "nlt", "tru"]
+
+/-- VOPC opcode space (identical on GCN3 and CDNA3 for the opcodes below) -/
+def vopcTable (op : Nat) : Option VOp :=
+  if op == 16 then some { cmpOf "v_cmp_class_f32" 32 .f32 (fun a b => fclass F.f32 a b) with modMask := 1 }
+  else if 64 ≤ op && op < 80 then
+    some (cmpOf ("v_cmp_" ++ fcmpNames[op - 64]! ++ "_f32") 32 .f32 (fcmp F.f32 (op - 64)))
+  else if 96 ≤ op && op < 112 then
+    some (cmpOf ("v_cmp_" ++ fcmpNames[op - 96]! ++ "_f64") 64 .f64 (fcmp F.f64 (op - 96)))
+  else if 160 ≤ op && op < 168 then
+    some (cmpOf ("v_cmp_" ++ cmpNames[op - 160]! ++ "_i16") 32 .int
+      (fun a b => cmpI (op - 160) (BitVec.ofNat 16 a) (BitVec.ofNat 16 b)))
+  else if 168 ≤ op && op < 176 then
+    some (cmpOf ("v_cmp_" ++ cmpNames[op - 168]! ++ "_u16") 32 .int
+      (fun a b => cmpU (op - 168) (BitVec.ofNat 16 a) (BitVec.ofNat 16 b)))
+  else if 192 ≤ op && op < 200 then
+    some (cmpOf ("v_cmp_" ++ cmpNames[op - 192]! ++ "_i32") 32 .int (fun a b => cmpI (op - 192) (w32 a) (w32 b)))
+  else if 200 ≤ op && op < 208 then
+    some (cmpOf ("v_cmp_" ++ cmpNames[op - 200]! ++ "_u32") 32 .int (fun a b => cmpU (op - 200) (w32 a) (w32 b)))
+  else if 224 ≤ op && op < 232 then
+    some (cmpOf ("v_cmp_" ++ cmpNames[op - 224]! ++ "_i64") 64 .int (fun a b => cmpI (op - 224) (w64 a) (w64 b)))
+  else if 232 ≤ op && op < 240 then
+    some (cmpOf ("v_cmp_" ++ cmpNames[op - 232]! ++ "_u64") 64 .int (fun a b => cmpU (op - 232) (w64 a) (w64 b)))
+  else none
+
+/-- V_MUL_LEGACY_F32: DX9 rules, 0 * anything = +0 -/
+def mulLegacy (a b : Nat) : Nat :=
+  if a % 2 ^ 31 == 0 || b % 2 ^ 31 == 0 then 0 else F.mul F.f32 a b
+
+def vop2Table (cdna3 : Bool) (op : Nat) : Option VOp :=
+  match op with
+  | 0 => some { name := "v_cndmask_b32", nsrc := 2, kind := .cndmask, f := fun x => ⟨if x.cin then x.b else x.a, false⟩ }
+  | 1 => some (binF "v_add_f32" F.f32 (F.add F.f32))
+  | 2 => some (binF "v_sub_f32" F.f32 (F.sub F.f32))
+  | 3 => some (binF "v_subrev_f32" F.f32 (fun a b => F.sub F.f32 b a))
+  -- 4 = v_mul_legacy_f32 (GCN3): DX9 rules for 0 * inf / NaN, sign of the zero not documented: no exact reference
+  | 5 => some (binF "v_mul_f32" F.f32 (F.mul F.f32))
+  | 6 => some (bin32 "v_mul_i32_i24" mulI24)
+  | 8 => some (bin32 "v_mul_u32_u24" mulU24)
+  | 10 => some { binF "v_min_f32" F.f32 (F.fmin F.f32) with arith := false }
+  | 11 => some { binF "v_max_f32" F.f32 (F.fmax F.f32) with arith := false }
+  | 12 => some (bin32 "v_min_i32" minI)
+  | 13 => some (bin32 "v_max_i32" maxI)
+  | 14 => some (bin32 "v_min_u32" minU)
+  | 15 => some (bin32 "v_max_u32" maxU)
+  | 16 => some (bin32 "v_lshrrev_b32" lshrrev)
+  | 17 => some (bin32 "v_ashrrev_i32" ashrrev)
+  | 18 => some (bin32 "v_lshlrev_b32" lshlrev)
+  | 19 => some (bin32 "v_and_b32" (· &&& ·))
+  | 20 => some (bin32 "v_or_b32" (· ||| ·))
+  | 21 => some (bin32 "v_xor_b32" (· ^^^ ·))
+  | 22 => if cdna3 then none else
+          some { triF "v_mac_f32" F.f32 (F.mad F.f32) with nsrc := 2, kind := .mac }
+  | 23 => some { triF (if cdna3 then "v_fmamk_f32" else "v_madmk_f32") F.f32
+                   (if cdna3 then F.fma F.f32 else F.mad F.f32) with nsrc := 2, kind := .madmk }
+  | 24 => some { triF (if cdna3 then "v_fmaak_f32" else "v_madak_f32") F.f32
+                   (if cdna3 then F.fma F.f32 else F.mad F.f32) with nsrc := 2, kind := .madak }
+  | 25 => some (co32 "v_add_co_u32" addCo)
+  | 26 => some (co32 "v_sub_co_u32" subCo)
+  | 27 => some (co32 "v_subrev_co_u32" (fun a b => subCo b a))
+  | 28 => some (cio32 "v_addc_co_u32" addcCo)
+  | 29 => some (cio32 "v_subb_co_u32" subbCo)
+  | 30 => some (cio32 "v_subbrev_co_u32" (fun a b c => subbCo b a c))
+  | 38 => some (bin32 "v_add_u16" addU16)
+  | 42 => some (bin32 "v_lshlrev_b16" lshlrev16)
+  | 52 => if cdna3 then some (bin32 "v_add_u32" (· + ·)) else none
+  | 53 => if cdna3 then some (bin32 "v_sub_u32" (· - ·)) else none
+  | 54 => if cdna3 then some (bin32 "v_subrev_u32" (fun a b => b - a)) else none
+  | 59 => if cdna3 then some { triF "v_fmac_f32" F.f32 (F.fma F.f32) with nsrc := 2, kind := .mac } else none
+  | _ => none
+
+def cvtOp (n : String) (ws wd : Nat) (ty : Ty) (arith : Bool) (g : Nat → Nat) : VOp :=
+  { name := n, nsrc := 1, w0 := ws, wd := wd, ty := ty, arith := arith, f := fun x => ⟨g x.a, false⟩ }
+
+def vop1Table (cdna3 : Bool) (op : Nat) : Option VOp :=
+  match op with
+  | 1 => some (un32 "v_mov_b32" id)
+  | 2 => some { un32 "v_readfirstlane_b32" id with kind := .rfl }
+  | 4 => some (cvtOp "v_cvt_f64_i32" 32 64 .int true (fun a => F.pack F.f64 (F.ofSInt 32 a)))
+  | 5 => some (cvtOp "v_cvt_f32_i32" 32 32 .int true (fun a => F.pack F.f32 (F.ofSInt 32 a)))
+  | 6 => some (cvtOp "v_cvt_f32_u32" 32 32 .int true (fun a => F.pack F.f32 (F.ofUInt a)))
+  | 7 => some (cvtOp "v_cvt_u32_f32" 32 32 .f32 false (fun a => F.toUInt 32 (F.unpack F.f32 a)))
+  | 8 => some (cvtOp "v_cvt_i32_f32" 32 32 .f32 false (fun a => F.toSInt 32 (F.unpack F.f32 a)))
+  | 10 => some (cvtOp "v_cvt_f16_f32" 32 32 .f32 false (fun a =>
+            if F.isNaNBits F.f32 a then F.f16.qnan else F.cvt F.f32 F.f16 a))
+  | 15 => some (cvtOp "v_cvt_f32_f64" 64 32 .f64 true (F.cvt F.f64 F.f32))
+  | 16 => some (cvtOp "v_cvt_f64_f32" 32 64 .f32 true (F.cvt F.f32 F.f64))
+  | 17 => some (cvtOp "v_cvt_f32_ubyte0" 32 32 .int true (fun a => F.pack F.f32 (F.ofUInt (a % 256))))
+  | 18 => some (cvtOp "v_cvt_f32_ubyte1" 32 32 .int true (fun a => F.pack F.f32 (F.ofUInt (a / 2 ^ 8 % 256))))
+  | 19 => some (cvtOp "v_cvt_f32_ubyte2" 32 32 .int true (fun a => F.pack F.f32 (F.ofUInt (a / 2 ^ 16 % 256))))
+  | 20 => some (cvtOp "v_cvt_f32_ubyte3" 32 32 .int true (fun a => F.pack F.f32 (F.ofUInt (a / 2 ^ 24 % 256))))
+  | 21 => some (cvtOp "v_cvt_u32_f64" 64 32 .f64 false (fun a => F.toUInt 32 (F.unpack F.f64 a)))
+  | 22 => some (cvtOp "v_cvt_f64_u32" 32 64 .int true (fun a => F.pack F.f64 (F.ofUInt a)))
+  | 3 => some (cvtOp "v_cvt_i32_f64" 64 32 .f64 false (fun a => F.toSInt 32 (F.unpack F.f64 a)))
+  | 28 => some (cvtOp "v_trunc_f32" 32 32 .f32 true (fun a => F.pack F.f32 (F.truncV (F.unpack F.f32 a))))
+  | 30 => some (cvtOp "v_rndne_f32" 32 32 .f32 true (fun a => F.pack F.f32 (F.rndneV (F.unpack F.f32 a))))
+  | 43 => some (un32 "v_not_b32" (~~~ ·))
+  | 44 => some (un32 "v_bfrev_b32" bfrev)
+  | 45 => some (un32 "v_ffbh_u32" ffbh)
+  | 46 => some (un32 "v_ffbl_b32" ffbl)
+  | 56 => if cdna3 then some (cvtOp "v_mov_b64" 64 64 .int false id)   -- GFX940: VOP1 0x38 is V_MOV_B64
+          else some { un32 "v_movrelsd_b32" id with kind := .movrel }
+  | _ => none
+
+/-- opcodes ≥ 448 of the VOP3 encoding (VOP3-only instructions) -/
+def vop3Table (cdna3 : Bool) (op : Nat) : Option VOp :=
+  match op with
+  | 449 => some (triF "v_mad_f32" F.f32 (F.mad F.f32))
+  | 450 => some (tri32 "v_mad_i32_i24" madI24)
+  | 451 => some (tri32 "v_mad_u32_u24" madU24)
+  | 456 => some (tri32 "v_bfe_u32" bfeU)
+  | 457 => some (tri32 "v_bfe_i32" bfeI)
+  | 458 => some (tri32 "v_bfi_b32" bfi)
+  | 459 => some (triF "v_fma_f32" F.f32 (F.fma F.f32))
+  | 460 => some (triF "v_fma_f64" F.f64 (F.fma F.f64))
+  | 465 => some (tri32 "v_min3_i32" min3I)
+  | 466 => some (tri32 "v_min3_u32" min3U)
+  | 468 => some (tri32 "v_max3_i32" max3I)
+  | 469 => some (tri32 "v_max3_u32" max3U)
+  | 471 => some (tri32 "v_med3_i32" med3I)
+  | 472 => some (tri32 "v_med3_u32" med3U)
+  | 464 => some { triF "v_min3_f32" F.f32 (fun a b c => F.fmin F.f32 (F.fmin F.f32 a b) c) with arith := false }
+  | 467 => some { triF "v_max3_f32" F.f32 (fun a b c => F.fmax F.f32 (F.fmax F.f32 a b) c) with arith := false }
+  | 462 => some (tri32 "v_alignbit_b32" alignbit)
+  | 482 => some { triF "v_div_fmas_f32" F.f32 (fun a b c => F.fma F.f32 a b c) with kind := .fmas }
+  | 483 => some { triF "v_div_fmas_f64" F.f64 (fun a b c => F.fma F.f64 a b c) with kind := .fmas }
+  | 488 => some { name := "v_mad_u64_u32", nsrc := 3, w2 := 64, wd := 64, kind := .carryOut,
+                  f := fun x => let r := madU64U32 (w32 x.a) (w32 x.b) (w64 x.c); ⟨r.1.toNat, r.2⟩ }
+  | 509 => if cdna3 then some (tri32 "v_lshl_add_u32" lshlAdd) else none
+  | 510 => if cdna3 then some (tri32 "v_add_lshl_u32" addLshl) else none
+  | 511 => some (tri32 "v_add3_u32" add3)
+  | 512 => if cdna3 then some (tri32 "v_lshl_or_b32" lshlOr) else none
+  | 520 => some { name := "v_lshl_add_u64", nsrc := 3, w0 := 64, w2 := 64, wd := 64,
+                  f := fun x => ⟨(lshlAdd64 (w64 x.a) (w32 x.b) (w64 x.c)).toNat, false⟩ }
+  | 640 => some (binF "v_add_f64" F.f64 (F.add F.f64))
+  | 641 => some (binF "v_mul_f64" F.f64 (F.mul F.f64))
+  | 642 => some { binF "v_min_f64" F.f64 (F.fmin F.f64) with arith := false }
+  | 643 => some { binF "v_max_f64" F.f64 (F.fmax F.f64) with arith := false }
+  | 645 => some (bin32 "v_mul_lo_u32" mulLo)
+  | 646 => some (bin32 "v_mul_hi_u32" mulHiU)
+  | 647 => some (bin32 "v_mul_hi_i32" mulHiI)
+  | 655 => some { name := "v_lshlrev_b64", nsrc := 2, w1 := 64, wd := 64,
+                  f := fun x => ⟨(lshlrev64 (w32 x.a) (w64 x.b)).toNat, false⟩ }
+  | 656 => some { name := "v_lshrrev_b64", nsrc := 2, w1 := 64, wd := 64,
+                  f := fun x => ⟨(lshrrev64 (w32 x.a) (w64 x.b)).toNat, false⟩ }
+  | 657 => some { name := "v_ashrrev_i64", nsrc := 2, w1 := 64, wd := 64,
+                  f := fun x => ⟨(ashrrev64 (w32 x.a) (w64 x.b)).toNat, false⟩ }
+  | _ => none
+
+/-! ## modifiers -/
+def signBitOf (ty : Ty) (w : Nat) : Nat := if ty == .f64 && w == 64 then 2 ^ 63 else 2 ^ 31
+/-- VOP3 ABS / NEG input modifiers act on the sign bit of float sources -/
+def applyMod (ty : Ty) (w : Nat) (abs neg : Bool) (x : Nat) : Nat :=
+  if ty == .int then x else
+  let sb := signBitOf ty w
+  let x1 := if abs then x % sb + (x / (2 * sb)) * (2 * sb) else x
+  if neg then (if (x1 / sb) % 2 == 1 then x1 - sb else x1 + sb) else x1
+
+/-- CLAMP on a float result: clamp to [0,1]; NaN → 0 (DX10_CLAMP) -/
+def clampF (fm : F.Fmt) (x : Nat) : Nat :=
+  match F.unpack fm x with
+  | .nan => 0
+  | v =>
+    let one := F.pack fm (.fin false 1 0)
+    if F.cmpV v (.fin false 0 0) == some .lt then 0
+    else if x == fm.signBit then 0
+    else if F.cmpV v (.fin false 1 0) == some .gt then one else x
+
+/-! ## execution of VALU instructions -/
+def bit (x i : Nat) : Bool := x.testBit i
+def field (w lo hi : Nat) : Nat := (w >>> lo) % 2 ^ (hi - lo + 1)
+
+/-- write a `w`-bit value to VGPR `r` (and `r+1`) of one lane -/
+def wrV (r lane w x : Nat) : List Wr :=
+  if w == 64 then [(.v r lane, lo32 x), (.v (r + 1) lane, x / 2 ^ 32 % 2 ^ 32)] else [(.v r lane, lo32 x)]
+
+/-- write a 64-bit lane mask to an SGPR pair / VCC (scalar destination code) -/
+def wrMask (code x : Nat) : List Wr :=
+  if code == 106 then [(.vcc, x)] else if code == 126 then [(.exec, x)]
+  else [(.s code, lo32 x), (.s (code + 1), x / 2 ^ 32)]
+
+def wrS32 (st : St) (code x : Nat) : List Wr :=
+  if code == 106 then [(.vcc, (st.vcc / 2 ^ 32) * 2 ^ 32 + lo32 x)]
+  else if code == 107 then [(.vcc, lo32 st.vcc + lo32 x * 2 ^ 32)]
+  else if code == 124 then [(.m0, lo32 x)]
+  else if code == 126 then [(.exec, (st.exec / 2 ^ 32) * 2 ^ 32 + lo32 x)]
+  else if code == 127 then [(.exec, lo32 st.exec + lo32 x * 2 ^ 32)]
+  else [(.s code, lo32 x)]
+
+structure VEnc where
+  op : VOp
+  src0 : Nat
+  src1 : Nat
+  src2 : Nat := 0
+  vdst : Nat
+  /-- scalar destination of lane masks (carry-out / compare) -/
+  sdst : Nat := 106
+  /-- carry-in / select mask source (scalar code) -/
+  msrc : Nat := 106
+  abs : Nat := 0
+  neg : Nat := 0
+  clamp : Bool := false
+  lit : Nat := 0
+  sdwa : Bool := false
+  dstSel : Nat := 6
+  dstUnused : Nat := 0
+  s0Sel : Nat := 6
+  s0Sext : Bool := false
+  s1Sel : Nat := 6
+  s1Sext : Bool := false
+
+def firstLane (exec : Nat) : Nat :=
+  ((List.range 64).find? (fun i => exec.testBit i)).getD 0
+
+def execVALU (st : St) (e : VEnc) : List Wr :=
+  let op := e.op
+  let isF64 := op.ty == .f64
+  if op.kind == .rfl then
+    wrS32 st e.vdst (st.src e.src0 (firstLane st.exec) 32 e.lit false)
+  else
+  let maskIn := if op.kind == .fmas then st.vcc else st.sreg64 e.msrc
+  let step := fun (acc : List Wr × Nat) (lane : Nat) =>
+    if !st.exec.testBit lane then acc else
+    let rd := fun (code w idx : Nat) =>
+      let raw := st.src code lane w e.lit isF64
+      let raw := if e.sdwa then
+          (sdwaSrc (w32 raw) (if idx == 0 then e.s0Sel else e.s1Sel) (if idx == 0 then e.s0Sext else e.s1Sext)).toNat
+        else raw
+      applyMod op.ty w (bit e.abs idx && bit op.modMask idx) (bit e.neg idx && bit op.modMask idx) (if w == 64 then raw % 2 ^ 64 else lo32 raw)
+    let a := rd e.src0 op.w0 0
+    let oldD := if op.wd == 64 then st.rv e.vdst lane + st.rv (e.vdst + 1) lane * 2 ^ 32 else st.rv e.vdst lane
+    let (b, c) :=
+      match op.kind with
+      | .madmk => (lo32 e.lit, rd e.src1 op.w1 1)
+      | .madak => (rd e.src1 op.w1 1, lo32 e.lit)
+      | .mac => (rd e.src1 op.w1 1, oldD)
+      | _ => (if op.nsrc ≥ 2 then rd e.src1 op.w1 1 else 0, if op.nsrc ≥ 3 then rd e.src2 op.w2 2 else 0)
+    let cin := maskIn.testBit lane
+    let o := op.f { a := a, b := b, c := c, cin := cin }
+    let d0 :=
+      if op.kind == .fmas && cin then
+        (if isF64 then F.mul F.f64 o.d 0x43f0000000000000 else F.mul F.f32 o.d 0x4f800000)
+      else o.d
+    let d1 := if e.clamp && op.arith then (if isF64 then clampF F.f64 d0 else clampF F.f32 d0) else d0
+    let d2 := if e.sdwa then (sdwaDst (w32 oldD) (w32 d1) e.dstSel e.dstUnused).toNat else d1
+    let ws :=
+      if op.kind == .cmp then []
+      else if op.kind == .movrel then
+        [(Cell.v ((e.vdst + st.m0) % 256) lane, st.rv ((e.src0 - 256 + st.m0) % 256) lane)]
+      else wrV e.vdst lane op.wd d2
+    (acc.1 ++ ws, if o.co then acc.2 + 2 ^ lane else acc.2)
+  let (ws, mask) := (List.range 64).foldl step ([], 0)
+  match op.kind with
+  | .cmp | .carryOut | .carryIO => ws ++ wrMask e.sdst mask
+  | _ => ws
+
+/-! ## decoding the vector encodings -/
+def sdwaFields (e : VEnc) (dw : Nat) : VEnc :=
+  { e with sdwa := true, src0 := 256 + field dw 0 7, dstSel := field dw 8 10, dstUnused := field dw 11 12,
+           s0Sel := field dw 16 18, s0Sext := bit dw 19, s1Sel := field dw 24 26, s1Sext := bit dw 27 }
+
+def decodeVALU (cdna3 : Bool) (w0 w1 : Nat) : Option VEnc :=
+  let top7 := field w0 25 31
+  if field w0 26 31 == 0x34 then
+    -- VOP3a / VOP3b
+    let opc := field w0 16 25
+    let base : Option VOp :=
+      if opc < 256 then vopcTable opc
+      else if opc < 320 then vop2Table cdna3 (opc - 256)
+      else if opc < 448 then vop1Table cdna3 (opc - 320)
+      else vop3Table cdna3 opc
+    base.map fun op =>
+      let isB := op.kind == .carryOut || op.kind == .carryIO
+      let e : VEnc := { op := op, src0 := field w1 0 8, src1 := field w1 9 17, src2 := field w1 18 26,
+                        vdst := field w0 0 7, neg := field w1 29 31 }
+      if isB then { e with sdst := field w0 8 14, msrc := field w1 18 26, clamp := bit w0 15 }
+      else if op.kind == .cmp then { e with sdst := field w0 0 7, abs := field w0 8 10, clamp := bit w0 15 }
+      else if op.kind == .cndmask then { e with msrc := field w1 18 26, abs := field w0 8 10, clamp := bit w0 15 }
+      else { e with abs := field w0 8 10, clamp := bit w0 15 }
+  else if top7 == 0x3F then
+    (vop1Table cdna3 (field w0 9 16)).map fun op =>
+      let e : VEnc := { op := op, src0 := field w0 0 8, src1 := 0, vdst := field w0 17 24, lit := w1 }
+      if field w0 0 8 == 249 then sdwaFields e w1 else e
+  else if top7 == 0x3E then
+    (vopcTable (field w0 17 24)).map fun op =>
+      let e : VEnc := { op := op, src0 := field w0 0 8, src1 := 256 + field w0 9 16, vdst := 0, lit := w1 }
+      if field w0 0 8 == 249 then sdwaFields e w1 else e
+  else if field w0 31 31 == 0 then
+    (vop2Table cdna3 (field w0 25 30)).map fun op =>
+      let e : VEnc := { op := op, src0 := field w0 0 8, src1 := 256 + field w0 9 16, vdst := field w0 17 24, lit := w1 }
+      if field w0 0 8 == 249 then sdwaFields e w1 else e
+  else none
+
+/-! ## memory instructions -/
+def bytesOf (n x : Nat) : List Nat := (List.range n).map fun i => (x / 2 ^ (8 * i)) % 256
+def leNat (bs : List Nat) : Nat := bs.zipIdx.foldl (fun acc (b, i) => acc + b * 2 ^ (8 * i)) 0
+def St.memRead (st : St) (a n : Nat) : Nat := leNat ((List.range n).map fun i => st.rmem ((a + i) % 2 ^ 64))
+def St.ldsRead (st : St) (a n : Nat) : Nat := leNat ((List.range n).map fun i => st.rlds (a + i))
+def wrMemBytes (a n x : Nat) : List Wr := (bytesOf n x).zipIdx.map fun (b, i) => (Cell.mem ((a + i) % 2 ^ 64), b)
+def wrLdsBytes (a n x : Nat) : List Wr := (bytesOf n x).zipIdx.map fun (b, i) => (Cell.lds (a + i), b)
+/-- write `n` dwords to consecutive VGPRs of one lane -/
+def wrVN (r lane n x : Nat) : List Wr := (List.range n).map fun i => (Cell.v (r + i) lane, (x / 2 ^ (32 * i)) % 2 ^ 32)
+def St.rvN (st : St) (r lane n : Nat) : Nat :=
+  (List.range n).foldl (fun acc i => acc + st.rv (r + i) lane * 2 ^ (32 * i)) 0
+def activeLanes (st : St) : List Nat := (List.range 64).filter fun i => st.exec.testBit i
+
+/-- SMEM S_LOAD_DWORD{,X2,X4,X8,X16}: SGPRs[sdata..] = MEM[SBASE + OFFSET] -/
+def execSMEM (cdna3 : Bool) (st : St) (w0 w1 : Nat) : Option (String × List Wr) :=
+  let op := field w0 18 25
+  if op > 4 then none else
+  let n := 2 ^ op
+  let base := st.sreg64 (2 * field w0 0 5)
+  let imm := bit w0 17
+  let off : Int :=
+    if imm then
+      (if cdna3 then (if bit w1 20 then (field w1 0 20 : Int) - 2 ^ 21 else (field w1 0 20 : Int))
+       else (field w1 0 19 : Int))
+    else (st.rs (field w1 0 6) : Int)
+  let addr := (((base : Int) + off) % (2 ^ 64 : Int)).toNat
+  let sdata := field w0 6 12
+  let ws := (List.range n).flatMap fun i => wrS32 st (sdata + i) (st.memRead (addr + 4 * i) 4)
+  some (#["s_load_dword", "s_load_dwordx2", "s_load_dwordx4", "s_load_dwordx8", "s_load_dwordx16"][op]!, ws)
+
+/-- FLAT / GLOBAL loads and stores -/
+def execFLAT (cdna3 : Bool) (st : St) (w0 w1 : Nat) : Option (String × List Wr) :=
+  let op := field w0 18 24
+  let seg := field w0 14 15
+  let saddr := field w1 16 22
+  let vaddr := field w1 0 7
+  let data := field w1 8 15
+  let vdst := field w1 24 31
+  let off : Int :=
+    if !cdna3 then 0
+    else if seg == 0 then (field w0 0 11 : Int) else sext13 (field w0 0 12)
+  let useS := cdna3 && seg != 0 && saddr != 0x7F
+  let addrOf := fun (lane : Nat) =>
+    let base : Int := if useS then (st.sreg64 saddr : Int) + (st.rv vaddr lane : Int)
+                      else (st.rvN vaddr lane 2 : Int)
+    ((base + off) % (2 ^ 64 : Int)).toNat
+  let load := fun (name : String) (nbytes : Nat) (signed : Bool) =>
+    some (name, (activeLanes st).flatMap fun l =>
+      let raw := st.memRead (addrOf l) nbytes
+      if nbytes < 4 then wrVN vdst l 1 (extend nbytes signed raw) else wrVN vdst l (nbytes / 4) raw)
+  let store := fun (name : String) (nbytes : Nat) =>
+    some (name, (activeLanes st).flatMap fun l =>
+      wrMemBytes (addrOf l) nbytes (st.rvN data l ((nbytes + 3) / 4)))
+  match op with
+  | 16 => load "load_ubyte" 1 false
+  | 17 => load "load_sbyte" 1 true
+  | 18 => load "load_ushort" 2 false
+  | 19 => load "load_sshort" 2 true
+  | 20 => load "load_dword" 4 false
+  | 21 => load "load_dwordx2" 8 false
+  | 22 => load "load_dwordx3" 12 false
+  | 23 => load "load_dwordx4" 16 false
+  | 24 => store "store_byte" 1
+  | 26 => store "store_short" 2
+  | 28 => store "store_dword" 4
+  | 29 => store "store_dwordx2" 8
+  | 30 => store "store_dwordx3" 12
+  | 31 => store "store_dwordx4" 16
+  | _ => none
+
+/-- DS (LDS) reads and writes. Addresses are `VGPR[addr] + offset` (32-bit wrap). -/
+def execDS (st : St) (w0 w1 : Nat) : Option (String × List Wr) :=
+  let op := field w0 17 24
+  let off0 := field w0 0 7
+  let off1 := field w0 8 15
+  let off16 := field w0 0 15
+  let addr := field w1 0 7
+  let d0 := field w1 8 15
+  let d1 := field w1 16 23
+  let vdst := field w1 24 31
+  let a1 := fun (l : Nat) => (st.rv addr l + off16) % 2 ^ 32
+  let write := fun (name : String) (n : Nat) =>
+    some (name, (activeLanes st).flatMap fun l => wrLdsBytes (a1 l) n (st.rvN d0 l ((n + 3) / 4)))
+  let read := fun (name : String) (n : Nat) (signed : Bool) =>
+    some (name, (activeLanes st).flatMap fun l =>
+      let raw := st.ldsRead (a1 l) n
+      if n < 4 then wrVN vdst l 1 (extend n signed raw) else wrVN vdst l (n / 4) raw)
+  let write2 := fun (name : String) (es stride : Nat) =>
+    some (name, (activeLanes st).flatMap fun l =>
+      wrLdsBytes (ds2Addr (st.rv addr l) off0 (es * stride)) es (st.rvN d0 l (es / 4)) ++
+      wrLdsBytes (ds2Addr (st.rv addr l) off1 (es * stride)) es (st.rvN d1 l (es / 4)))
+  let read2 := fun (name : String) (es stride : Nat) =>
+    some (name, (activeLanes st).flatMap fun l =>
+      wrVN vdst l (es / 4) (st.ldsRead (ds2Addr (st.rv addr l) off0 (es * stride)) es) ++
+      wrVN (vdst + es / 4) l (es / 4) (st.ldsRead (ds2Addr (st.rv addr l) off1 (es * stride)) es))
+  match op with
+  | 13 => write "ds_write_b32" 4
+  | 14 => write2 "ds_write2_b32" 4 1
+  | 15 => write2 "ds_write2st64_b32" 4 64
+  | 30 => write "ds_write_b8" 1
+  | 31 => write "ds_write_b16" 2
+  | 54 => read "ds_read_b32" 4 false
+  | 55 => read2 "ds_read2_b32" 4 1
+  | 56 => read2 "ds_read2st64_b32" 4 64
+  | 57 => read "ds_read_i8" 1 true
+  | 58 => read "ds_read_u8" 1 false
+  | 59 => read "ds_read_i16" 2 true
+  | 60 => read "ds_read_u16" 2 false
+  | 77 => write "ds_write_b64" 8
+  | 78 => write2 "ds_write2_b64" 8 1
+  | 79 => write2 "ds_write2st64_b64" 8 64
+  | 118 => read "ds_read_b64" 8 false
+  | 119 => read2 "ds_read2_b64" 8 1
+  | 120 => read2 "ds_read2st64_b64" 8 64
+  | 222 => write "ds_write_b96" 12
+  | 223 => write "ds_write_b128" 16
+  | 254 => read "ds_read_b96" 12 false
+  | 255 => read "ds_read_b128" 16 false
+  | _ => none
+
+/-! ## top level -/
+def leWord (bs : List Nat) (i : Nat) : Nat :=
+  bs.getD (4 * i) 0 + bs.getD (4 * i + 1) 0 * 2 ^ 8 + bs.getD (4 * i + 2) 0 * 2 ^ 16 + bs.getD (4 * i + 3) 0 * 2 ^ 24
+
+/-- execute one instruction; `none` = outside the specified subset -/
+def exec (cdna3 : Bool) (st : St) (bs : List Nat) : Option (String × List Wr) :=
+  let w0 := leWord bs 0
+  let w1 := leWord bs 1
+  let enc := field w0 26 31
+  if enc == 0x30 then execSMEM cdna3 st w0 w1
+  else if enc == 0x37 then execFLAT cdna3 st w0 w1
+  else if enc == 0x36 then execDS st w0 w1
+  else (decodeVALU cdna3 w0 w1).map fun e => (e.op.name, execVALU st e)
+
+def handle (line : String) : String :=
+  match Util.words line with
+  | _ :: _ :: arch :: hex :: cells =>
+    match Util.hexBytes? hex with
+    | none => "bad"
+    | some bs =>
+      match cells.foldlM parseCell St.empty with
+      | none => "bad"
+      | some st =>
+        match exec (arch == "cdna3") st bs with
+        | none => "nospec"
+        | some (_, ws) => finalize st ws
+  | _ => "bad"
+
 end C03V
